@@ -198,15 +198,31 @@ func (w *World) parseVerdictOf(k string) *parseVerdict {
 func (w *World) rulesParse(out *[]Obligation) {
 	for _, k := range w.Order {
 		*out = append(*out, w.parseVerdictOf(k).obls...)
-		// the bounded scanner tabulation runs on the program as written
+		// the bounded scanner tabulation runs on the program as written; when the
+		// evaluator cannot run that, on the normalised (equivalent) program the parse
+		// verdict was taken from, if there is one
 		p := w.Pkgs[k]
-		w.rulesScan(p, func(ok bool, rule, inst string, n ast.Node, detail string) {
-			pos := k
-			if n != nil {
-				pos = p.pos(n)
+		var scanObls []Obligation
+		collect := func(pk *Pkg, suffix string) func(ok bool, rule, inst string, n ast.Node, detail string) {
+			return func(ok bool, rule, inst string, n ast.Node, detail string) {
+				pos := k
+				if n != nil {
+					pos = pk.pos(n)
+				}
+				scanObls = append(scanObls, Obligation{Rule: rule, Instance: k + "." + inst, Pos: pos, OK: ok, Detail: detail + suffix, NonTrivial: true})
 			}
-			*out = append(*out, Obligation{Rule: rule, Instance: k + "." + inst, Pos: pos, OK: ok, Detail: detail, NonTrivial: true})
-		})
+		}
+		w.rulesScan(p, collect(p, ""))
+		notRun := len(scanObls) == 1 && scanObls[0].OK && strings.HasPrefix(scanObls[0].Detail, "not evaluated")
+		if vp := w.parseVerdictOf(k).pkg; notRun && vp != nil && vp != p {
+			first := scanObls
+			scanObls = nil
+			w.rulesScan(vp, collect(vp, " (evaluated on the program with its helper calls inlined)"))
+			if len(scanObls) == 0 || (len(scanObls) == 1 && scanObls[0].OK && strings.HasPrefix(scanObls[0].Detail, "not evaluated")) {
+				scanObls = first
+			}
+		}
+		*out = append(*out, scanObls...)
 	}
 	// R13.const: headers pairwise prefix-incomparable, and none is a prefix of / prefixed by "AV:"
 	heads := map[string]string{}
